@@ -1,51 +1,62 @@
 (* Model/PatternShow.v -- one-line renderings of the C10 model's values for
-   the correspondence run (harness/props/c10.py prints the implementation's
-   values in the same format).  No proofs.                                   *)
+   the correspondence run (harness/impl/c10_impl.py prints the implementation's
+   values in the same format).  No proofs.  Every printer takes the text that
+   follows as an accumulator (linear cost).                                   *)
 From Coq Require Import NArith ZArith List String Ascii Bool.
 From V Require Import Model.PatternSyntax.
 Import ListNotations.
 Open Scope string_scope.
 
-(* text: [A-Za-z0-9_] as is, everything else \XXXXXX *)
+Definition sh := string -> string.
+Definition lit (s : string) : sh := fun acc => append s acc.
+Definition sq (l : list sh) : sh := fun acc => fold_right (fun f a => f a) acc l.
+Definition seps {A} (f : A -> sh) (sep : string) : list A -> sh :=
+  fix go (l : list A) (acc : string) : string :=
+    match l with
+    | [] => acc
+    | [x] => f x acc
+    | x :: r => f x (append sep (go r acc))
+    end.
+
+(* text: printable ASCII except backslash, double quote and the field
+   separator as is, everything else \XXXXXX *)
 Definition show_qc (c : N) (acc : string) : string :=
-  if is_alpha_ c || is_digit c then String (ascii_of_N c) acc
+  if ((32 <=? c) && (c <=? 126) && negb (c =? 92) && negb (c =? 34))%N then String (ascii_of_N c) acc
   else String "\" (String (hexdigit (c / 1048576 mod 16)) (String (hexdigit (c / 65536 mod 16))
        (String (hexdigit (c / 4096 mod 16)) (String (hexdigit (c / 256 mod 16))
        (String (hexdigit (c / 16 mod 16)) (String (hexdigit (c mod 16)) acc)))))).
-Definition show_q (s : ustring) : string := fold_right show_qc EmptyString s.
+Definition show_q (s : ustring) : sh := fun acc => fold_right show_qc acc s.
+Definition shN (n : N) : sh := lit (show_N n).
+Definition shZ (z : Z) : sh := lit (show_Z z).
 
-Definition cat (l : list string) : string := fold_right append EmptyString l.
-Fixpoint sepcat (sep : string) (l : list string) : string :=
-  match l with [] => "" | [x] => x | x :: r => x ++ sep ++ sepcat sep r end.
+Definition show_ts (t : tsval) : sh :=
+  sq [lit "T("; shN (ts_y t); lit ","; shN (ts_mo t); lit ","; shN (ts_d t); lit ","; shN (ts_h t); lit ",";
+      shN (ts_mi t); lit ","; shN (ts_s t); lit ","; show_q (ts_us t); lit ")"].
+Definition show_f (f : fval) : sh :=
+  sq [lit "F("; lit (if f_neg f then "-" else "+"); lit ","; show_q (f_ip f); lit ","; show_q (f_fp f); lit ")"].
 
-Definition show_digits (l : list N) : string := show_q l.
-
-Definition show_ts (t : tsval) : string :=
-  cat ["T("; show_N (ts_y t); ","; show_N (ts_mo t); ","; show_N (ts_d t); ","; show_N (ts_h t); ",";
-       show_N (ts_mi t); ","; show_N (ts_s t); ","; show_digits (ts_us t); ")"].
-
-Fixpoint show_const (c : aconst) : string :=
+Fixpoint show_const (c : aconst) : sh :=
   match c with
-  | CString v q => cat ["S("; show_q v; ","; if q then "q" else "r"; ")"]
+  | CString v q => sq [lit "S("; show_q v; lit ","; lit (if q then "q" else "r"); lit ")"]
   | CTimestamp t => show_ts t
-  | CInt z => cat ["I("; show_Z z; ")"]
-  | CFloat f => cat ["F("; if f_neg f then "-" else "+"; ","; show_digits (f_ip f); ","; show_digits (f_fp f); ")"]
-  | CBool b => if b then "B(t)" else "B(f)"
-  | CBinary v => cat ["Y("; show_q v; ")"]
-  | CHex v => cat ["H("; show_q v; ")"]
-  | CList l => cat ["L["; sepcat ";" (map show_const l); "]"]
+  | CInt z => sq [lit "I("; shZ z; lit ")"]
+  | CFloat f => show_f f
+  | CBool b => lit (if b then "B(t)" else "B(f)")
+  | CBinary v => sq [lit "Y("; show_q v; lit ")"]
+  | CHex v => sq [lit "H("; show_q v; lit ")"]
+  | CList l => sq [lit "L["; seps show_const ";" l; lit "]"]
   end.
 
-Definition show_idx (i : aindex) : string :=
-  match i with IdxInt z => cat ["i"; show_Z z] | IdxStr s => cat ["s"; show_q s] end.
-Definition show_comp (c : acomp) : string :=
+Definition show_idx (i : aindex) : sh :=
+  match i with IdxInt z => sq [lit "i"; shZ z] | IdxStr s => sq [lit "s"; show_q s] end.
+Definition show_comp (c : acomp) : sh :=
   match c with
-  | ABasic n => cat ["b("; show_q n; ")"]
-  | AList n i => cat ["l("; show_q n; ","; show_idx i; ")"]
-  | ARef n => cat ["r("; show_q n; ")"]
+  | ABasic n => sq [lit "b("; show_q n; lit ")"]
+  | AList n i => sq [lit "l("; show_q n; lit ","; show_idx i; lit ")"]
+  | ARef n => sq [lit "r("; show_q n; lit ")"]
   end.
-Definition show_path (p : apath) : string :=
-  cat ["P("; show_q (ap_type p); ")["; sepcat ";" (map show_comp (ap_comps p)); "]"].
+Definition show_path (p : apath) : sh :=
+  sq [lit "P("; show_q (ap_type p); lit ")["; seps show_comp ";" (ap_comps p); lit "]"].
 
 Definition show_cls (c : cmpcls) : string :=
   match c with
@@ -56,23 +67,23 @@ Definition show_cls (c : cmpcls) : string :=
 Definition show_obsop (o : obsop) : string :=
   match o with OpAnd => "AND" | OpOr => "OR" | OpFb => "FOLLOWEDBY" end.
 
-Definition show_qual (q : aqual) : string :=
+Definition show_qual (q : aqual) : sh :=
   match q with
-  | AQRepeat c => cat ["Rep("; show_const c; ")"]
-  | AQWithin c => cat ["Win("; show_const c; ")"]
-  | AQStartStop a b => cat ["SS("; show_const a; ";"; show_const b; ")"]
+  | AQRepeat c => sq [lit "Rep("; show_const c; lit ")"]
+  | AQWithin c => sq [lit "Win("; show_const c; lit ")"]
+  | AQStartStop a b => sq [lit "SS("; show_const a; lit ";"; show_const b; lit ")"]
   end.
 
-Fixpoint show_expr (e : aexpr) : string :=
+Fixpoint show_expr (e : aexpr) : sh :=
   match e with
   | ECmp cls lhs rhs neg =>
-      cat ["Cmp("; show_cls cls; ","; show_q (tx (cls_operator cls rhs)); ","; if neg then "1" else "0"; ",";
-           show_path lhs; ","; show_const rhs; ")"]
-  | EBool isand ops => cat ["Bool("; if isand then "AND" else "OR"; ")["; sepcat ";" (map show_expr ops); "]"]
-  | EObs x => cat ["Obs["; show_expr x; "]"]
-  | ECompound op ops => cat ["Cpd("; show_obsop op; ")["; sepcat ";" (map show_expr ops); "]"]
-  | EParen x => cat ["Par["; show_expr x; "]"]
-  | EQualified x q => cat ["Qual["; show_expr x; ";"; show_qual q; "]"]
+      sq [lit "Cmp("; lit (show_cls cls); lit ","; show_q (tx (cls_operator cls rhs)); lit ",";
+          lit (if neg then "1" else "0"); lit ","; show_path lhs; lit ","; show_const rhs; lit ")"]
+  | EBool isand ops => sq [lit "Bool("; lit (if isand then "AND" else "OR"); lit ")["; seps show_expr ";" ops; lit "]"]
+  | EObs x => sq [lit "Obs["; show_expr x; lit "]"]
+  | ECompound op ops => sq [lit "Cpd("; lit (show_obsop op); lit ")["; seps show_expr ";" ops; lit "]"]
+  | EParen x => sq [lit "Par["; show_expr x; lit "]"]
+  | EQualified x q => sq [lit "Qual["; show_expr x; lit ";"; show_qual q; lit "]"]
   end.
 
 Definition show_exn (e : exn) : string :=
@@ -81,42 +92,43 @@ Definition show_exn (e : exn) : string :=
   | IndexError => "IndexError" | ParseException => "ParseException" | Junk => "Junk"
   end.
 
-Definition show_result (r : result aexpr) : string :=
-  match r with Ok e => "OK " ++ show_expr e | Raise x => "EXC " ++ show_exn x end.
+Definition show_result (r : result aexpr) : sh :=
+  match r with Ok e => sq [lit "OK "; show_expr e] | Raise x => sq [lit "EXC "; lit (show_exn x)] end.
 
 (* ---- the parse tree, in the format c10_impl.py prints the ANTLR tree ---- *)
 
-Definition sh_tok (t : token) : string := show_q (tx t).
-Definition node (name : string) (kids : list string) : string := cat ["("; name; " "; sepcat " " kids; ")"].
+Definition sh_tok (t : token) : sh := show_q (tx t).
+Definition node (name : string) (kids : list sh) : sh :=
+  sq [lit "("; lit name; lit " "; seps (fun f => f) " " kids; lit ")"].
 
-Definition sh_pstep (s : pstep) : string :=
+Definition sh_pstep (s : pstep) : sh :=
   match s with
   | KeyStep n => node "KeyPathStep" [sh_tok t_DOT; sh_tok n]
   | IndexStep i => node "IndexPathStep" [sh_tok t_LBRACK; sh_tok i; sh_tok t_RBRACK]
   end.
-Fixpoint sh_opc (c : opc) : string :=
+Fixpoint sh_opc (c : opc) : sh :=
   match c with
   | OStep s => sh_pstep s
   | OPathStep l r => node "PathStep" [sh_opc l; sh_pstep r]
   end.
-Definition sh_path (p : objpath) : string :=
+Definition sh_path (p : objpath) : sh :=
   node "ObjectPath" ([node "ObjectType" [sh_tok (op_type p)]; sh_tok t_COLON;
                       node "FirstPathComponent" [sh_tok (op_first p)]]
                      ++ match op_rest p with Some c => [sh_opc c] | None => [] end).
-Definition sh_orderable (t : token) : string := node "OrderableLiteral" [sh_tok t].
-Definition sh_primitive (t : token) : string :=
+Definition sh_orderable (t : token) : sh := node "OrderableLiteral" [sh_tok t].
+Definition sh_primitive (t : token) : sh :=
   match tk t with
   | KBool => node "PrimitiveLiteral" [sh_tok t]
   | _ => node "PrimitiveLiteral" [sh_orderable t]
   end.
-Fixpoint sh_set_items (l : list token) : list string :=
+Fixpoint sh_set_items (l : list token) : list sh :=
   match l with [] => [] | [x] => [sh_primitive x] | x :: r => sh_primitive x :: sh_tok t_COMMA :: sh_set_items r end.
-Definition sh_not (nt : bool) : list string := if nt then [sh_tok t_NOT] else [].
+Definition sh_not (nt : bool) : list sh := if nt then [sh_tok t_NOT] else [].
 Definition strop_name (o : strop) : string :=
   match o with SLike => "PropTestLike" | SRegex => "PropTestRegex" | SIsSubset => "PropTestIsSubset"
              | SIsSuperset => "PropTestIsSuperset" end.
 
-Fixpoint sh_pt (p : proptest) : string :=
+Fixpoint sh_pt (p : proptest) : sh :=
   match p with
   | PTEqual p nt op l => node "PropTestEqual" ([sh_path p] ++ sh_not nt ++ [sh_tok op; sh_primitive l])
   | PTOrder p nt op l => node "PropTestOrder" ([sh_path p] ++ sh_not nt ++ [sh_tok op; sh_orderable l])
@@ -126,18 +138,18 @@ Fixpoint sh_pt (p : proptest) : string :=
   | PTParen e => node "PropTestParen" [sh_tok t_LPAREN; sh_or e; sh_tok t_RPAREN]
   | PTExists nt p => node "PropTestExists" (sh_not nt ++ [sh_tok t_EXISTS; sh_path p])
   end
-with sh_and (a : cmpand) : string :=
+with sh_and (a : cmpand) : sh :=
   match a with
   | CAndBase p => node "ComparisonExpressionAnd" [sh_pt p]
   | CAnd l r => node "ComparisonExpressionAnd" [sh_and l; sh_tok t_AND; node "ComparisonExpressionAnd" [sh_pt r]]
   end
-with sh_or (o : cmpor) : string :=
+with sh_or (o : cmpor) : sh :=
   match o with
   | COrBase a => node "ComparisonExpression" [sh_and a]
   | COr l r => node "ComparisonExpression" [sh_or l; sh_tok t_OR; node "ComparisonExpression" [sh_and r]]
   end.
 
-Definition sh_qual (q : qual) : string :=
+Definition sh_qual (q : qual) : sh :=
   match q with
   | QStartStop a b => node "StartStopQualifier" [sh_tok t_START; sh_tok a; sh_tok t_STOP; sh_tok b]
   | QWithin n => node "WithinQualifier" [sh_tok t_WITHIN; sh_tok n; sh_tok t_SECONDS]
@@ -150,31 +162,32 @@ Definition qual_alt (q : qual) : string :=
   | QRepeat _ => "ObservationExpressionRepeated"
   end.
 
-Fixpoint sh_obs (o : obs) : string :=
+Fixpoint sh_obs (o : obs) : sh :=
   match o with
   | OSimple e => node "ObservationExpressionSimple" [sh_tok t_LBRACK; sh_or e; sh_tok t_RBRACK]
   | OCompound e => node "ObservationExpressionCompound" [sh_tok t_LPAREN; sh_fb e; sh_tok t_RPAREN]
   | OQual o q => node (qual_alt q) [sh_obs o; sh_qual q]
   end
-with sh_oand (a : obsand) : string :=
+with sh_oand (a : obsand) : sh :=
   match a with
   | OAndBase o => node "ObservationExpressionAnd" [sh_obs o]
   | OAnd l r => node "ObservationExpressionAnd" [sh_oand l; sh_tok t_AND; node "ObservationExpressionAnd" [sh_obs r]]
   end
-with sh_oor (a : obsor) : string :=
+with sh_oor (a : obsor) : sh :=
   match a with
   | OOrBase o => node "ObservationExpressionOr" [sh_oand o]
   | OOr l r => node "ObservationExpressionOr" [sh_oor l; sh_tok t_OR; node "ObservationExpressionOr" [sh_oand r]]
   end
-with sh_fb (a : obsfb) : string :=
+with sh_fb (a : obsfb) : sh :=
   match a with
   | OFbBase o => node "ObservationExpressions" [sh_oor o]
   | OFb l r => node "ObservationExpressions" [sh_fb l; sh_tok t_FOLLOWEDBY; node "ObservationExpressions" [sh_oor r]]
   end.
 
-Definition shape (p : pattern) : string := node "Pattern" [sh_fb p; sh_tok t_EOF].
+Definition shape (p : pattern) : sh := node "Pattern" [sh_fb p; sh_tok t_EOF].
 
-(* tokens, as "KIND:text KIND:text ..." *)
+(* tokens of the printed text, as "KIND:length KIND:length ..." (the text
+   itself is compared through str()) *)
 Definition show_kind (k : tkind) : string :=
   match k with
   | KIntNeg => "IntNegLiteral" | KIntPos => "IntPosLiteral" | KFloatNeg => "FloatNegLiteral"
@@ -189,76 +202,108 @@ Definition show_kind (k : tkind) : string :=
   | KRPAREN => "RPAREN" | KLPAREN => "LPAREN" | KRBRACK => "RBRACK" | KLBRACK => "LBRACK"
   | KASTERISK => "ASTERISK" | KEOF => "EOF"
   end.
-Definition show_toks (l : list token) : string :=
-  sepcat " " (map (fun t => cat [show_kind (tk t); ":"; show_q (tx t)]) l).
+Definition show_toks (l : list token) : sh :=
+  seps (fun t => sq [lit (show_kind (tk t)); lit ":"; lit (show_nat (List.length (tx t)))]) " " l.
 
 (* ---- meaning ---- *)
-Fixpoint show_mconst (c : mconst) : string :=
+Fixpoint show_mconst (c : mconst) : sh :=
   match c with
-  | MStr s => cat ["S("; show_q s; ")"]
+  | MStr s => sq [lit "S("; show_q s; lit ")"]
   | MTs t => show_ts t
-  | MInt z => cat ["I("; show_Z z; ")"]
-  | MFloat f => cat ["F("; if f_neg f then "-" else "+"; ","; show_digits (f_ip f); ","; show_digits (f_fp f); ")"]
-  | MBool b => if b then "B(t)" else "B(f)"
-  | MBin v => cat ["Y("; show_q v; ")"]
-  | MHex v => cat ["H("; show_q v; ")"]
-  | MList l => cat ["L["; sepcat ";" (map show_mconst l); "]"]
-  | MBadConst => "BAD"
+  | MInt z => sq [lit "I("; shZ z; lit ")"]
+  | MFloat f => show_f f
+  | MBool b => lit (if b then "B(t)" else "B(f)")
+  | MBin v => sq [lit "Y("; show_q v; lit ")"]
+  | MHex v => sq [lit "H("; show_q v; lit ")"]
+  | MList l => sq [lit "L["; seps show_mconst ";" l; lit "]"]
+  | MBadConst => lit "BAD"
   end.
-Definition show_mstep (s : mstep) : string :=
+Definition show_mstep (s : mstep) : sh :=
   match s with
-  | MKey n => cat ["k("; show_q n; ")"] | MIndex z => cat ["i("; show_Z z; ")"] | MStar => "*" | MBadStep => "BAD"
+  | MKey n => sq [lit "k("; show_q n; lit ")"] | MIndex z => sq [lit "i("; shZ z; lit ")"]
+  | MStar => lit "*" | MBadStep => lit "BAD"
   end.
-Definition show_mpath (p : mpath) : string :=
-  cat ["P("; show_q (mp_type p); ")["; sepcat ";" (map show_mstep (mp_steps p)); "]"].
+Definition show_mpath (p : mpath) : sh :=
+  sq [lit "P("; show_q (mp_type p); lit ")["; seps show_mstep ";" (mp_steps p); lit "]"].
 Definition show_mop (o : mop) : string :=
   match o with
   | MoEq => "=" | MoGt => ">" | MoLt => "<" | MoGe => ">=" | MoLe => "<=" | MoIn => "IN" | MoLike => "LIKE"
   | MoMatches => "MATCHES" | MoSubset => "ISSUBSET" | MoSuperset => "ISSUPERSET" | MoExists => "EXISTS"
   end.
-Definition show_mqual (q : mqual) : string :=
+Definition show_mqual (q : mqual) : sh :=
   match q with
-  | MRepeat c => cat ["Rep("; show_mconst c; ")"]
-  | MWithin c => cat ["Win("; show_mconst c; ")"]
-  | MStartStop a b => cat ["SS("; show_mconst a; ";"; show_mconst b; ")"]
-  | MBadQual => "BAD"
+  | MRepeat c => sq [lit "Rep("; show_mconst c; lit ")"]
+  | MWithin c => sq [lit "Win("; show_mconst c; lit ")"]
+  | MStartStop a b => sq [lit "SS("; show_mconst a; lit ";"; show_mconst b; lit ")"]
+  | MBadQual => lit "BAD"
   end.
-Fixpoint show_mexpr (e : mexpr) : string :=
+Fixpoint show_mexpr (e : mexpr) : sh :=
   match e with
-  | MCmp p op neg c => cat ["Cmp("; show_mpath p; ","; show_mop op; ","; if neg then "1" else "0"; ","; show_mconst c; ")"]
-  | MExists p neg => cat ["Exists("; show_mpath p; ","; if neg then "1" else "0"; ")"]
-  | MBoolOp isand ops => cat ["Bool("; if isand then "AND" else "OR"; ")["; sepcat ";" (map show_mexpr ops); "]"]
-  | MObs x => cat ["Obs["; show_mexpr x; "]"]
-  | MObsOp op ops => cat ["Cpd("; show_obsop op; ")["; sepcat ";" (map show_mexpr ops); "]"]
-  | MParen x => cat ["Par["; show_mexpr x; "]"]
-  | MQualified x q => cat ["Qual["; show_mexpr x; ";"; show_mqual q; "]"]
-  | MBad => "BAD"
+  | MCmp p op neg c => sq [lit "Cmp("; show_mpath p; lit ","; lit (show_mop op); lit ","; lit (if neg then "1" else "0");
+                           lit ","; show_mconst c; lit ")"]
+  | MExists p neg => sq [lit "Exists("; show_mpath p; lit ","; lit (if neg then "1" else "0"); lit ")"]
+  | MBoolOp isand ops => sq [lit "Bool("; lit (if isand then "AND" else "OR"); lit ")["; seps show_mexpr ";" ops; lit "]"]
+  | MObs x => sq [lit "Obs["; show_mexpr x; lit "]"]
+  | MObsOp op ops => sq [lit "Cpd("; lit (show_obsop op); lit ")["; seps show_mexpr ";" ops; lit "]"]
+  | MParen x => sq [lit "Par["; show_mexpr x; lit "]"]
+  | MQualified x q => sq [lit "Qual["; show_mexpr x; lit ";"; show_mqual q; lit "]"]
+  | MBad => lit "BAD"
   end.
 
 (* ---- the lines the correspondence run asks for ---- *)
 Definition tab : string := String (ascii_of_nat 9) EmptyString.
 
-(* parse tree shape, visit result, str() of the object, its tokens, meaning of tree and object *)
-Definition run_case (g : cfg) (p : pattern) : string :=
-  let r := visit g p in
-  cat [shape p; tab; show_result r; tab;
-       match r with Ok a => show_q (print_text a) | Raise _ => "-" end; tab;
-       match r with Ok a => show_toks (print a) | Raise _ => "-" end; tab;
-       show_mexpr (meaning_cst p); tab;
-       match r with Ok a => show_mexpr (meaning_ast a) | Raise _ => "-" end; tab;
-       match r with
-       | Ok a => match unvisit a with
-                 | Some c => cat [if forallb (fun ab => ustr_eqb (tx (fst ab)) (tx (snd ab)) && tkind_eqb (tk (fst ab)) (tk (snd ab)))
-                                         (combine (yield c) (print a)) && Nat.eqb (List.length (yield c)) (List.length (print a))
-                                  then "Y" else "y";
-                                  match visit g c with Ok a' => if String.eqb (show_expr a') (show_expr a) then "V" else "v" | Raise _ => "x" end]
-                 | None => "none" end
-       | Raise _ => "-" end].
+Fixpoint toks_eqb (a b : list token) : bool :=
+  match a, b with
+  | [], [] => true
+  | x :: a', y :: b' => tkind_eqb (tk x) (tk y) && ustr_eqb (tx x) (tx y) && toks_eqb a' b'
+  | _, _ => false
+  end.
 
-(* an object built through the public classes: str(), tokens, meaning, and what re-parsing gives *)
-Definition run_prog (g : cfg) (a : aexpr) : string :=
-  cat [show_q (print_text a); tab; show_mexpr (meaning_ast a); tab;
-       match unvisit a with
-       | Some c => cat [shape c; tab; show_result (visit g c)]
-       | None => cat ["none"; tab; "-"]
-       end].
+(* a field is printed in full (diagnostics) or as a 61-bit polynomial hash of
+   its text (the run: reading a long string back from the VM is the cost) *)
+Definition hash_mask : N := 2305843009213693951.
+Fixpoint hash_go (s : string) (h : N) : N :=
+  match s with
+  | EmptyString => h
+  | String a r => hash_go r (N.land (h * 131 + N_of_ascii a) hash_mask)
+  end.
+Definition enc_full (f : sh) : sh := f.
+Definition enc_hash (f : sh) : sh := lit (show_N (hash_go (f "") 7)).
+
+Definition result_kind (r : result aexpr) : sh :=
+  match r with Ok _ => lit "OK" | Raise x => sq [lit "EXC "; lit (show_exn x)] end.
+
+(* parse tree shape, kind of the visit result, visit result, str() of the
+   object, its tokens, meaning of tree and object; then: does unvisit give a
+   tree whose yield is exactly the printed tokens (Y/y), and does the visitor
+   map that tree back to the same object (V/v, x = it raises) *)
+Definition run_case_with (enc : sh -> sh) (g : cfg) (p : pattern) : string :=
+  let r := visit g p in
+  sq [enc (shape p); lit tab; result_kind r; lit tab; enc (show_result r); lit tab;
+      match r with Ok a => enc (show_q (print_text a)) | Raise _ => lit "-" end; lit tab;
+      match r with Ok a => enc (show_toks (print a)) | Raise _ => lit "-" end; lit tab;
+      enc (show_mexpr (meaning_cst p)); lit tab;
+      match r with Ok a => enc (show_mexpr (meaning_ast a)) | Raise _ => lit "-" end; lit tab;
+      match r with
+      | Ok a => match unvisit a with
+                | Some c => sq [lit (if toks_eqb (yield c) (print a) then "Y" else "y");
+                                match visit g c with
+                                | Ok a' => lit (if String.eqb (show_expr a' "") (show_expr a "") then "V" else "v")
+                                | Raise _ => lit "x" end]
+                | None => lit "none" end
+      | Raise _ => lit "-" end] "".
+Definition run_case := run_case_with enc_full.
+Definition run_case_h := run_case_with enc_hash.
+
+(* an object built through the public classes: str(), meaning, the tree unvisit
+   gives, what the visitor makes of that tree, yield = printed tokens *)
+Definition run_prog_with (enc : sh -> sh) (g : cfg) (a : aexpr) : string :=
+  sq [enc (show_q (print_text a)); lit tab; enc (show_mexpr (meaning_ast a)); lit tab;
+      match unvisit a with
+      | Some c => sq [enc (shape c); lit tab; enc (show_result (visit g c)); lit tab;
+                      lit (if toks_eqb (yield c) (print a) then "Y" else "y")]
+      | None => sq [lit "none"; lit tab; lit "-"; lit tab; lit "-"]
+      end] "".
+Definition run_prog := run_prog_with enc_full.
+Definition run_prog_h := run_prog_with enc_hash.
